@@ -141,6 +141,16 @@ class Shapes:
                     level3.append(w2)
         return self.leaves() + level1 + level2 + level3
 
+    def mini(self) -> list[AHint]:
+        """Reduced set for the self-test: every production around every leaf and around one
+        representative of every production."""
+        out = list(self.leaves())
+        for c in self.leaves() + [self.G.ignorable()]:
+            out.extend(self.wrap(c))
+        for c in self.representatives()[2:12]:
+            out.extend(self.wrap(c))
+        return out
+
     def sample_depth3(self, n: int, seed: int) -> list[AHint]:
         rnd = random.Random(seed)
         leaves = self.leaves() + [self.G.ignorable()]
